@@ -198,6 +198,19 @@ func runOne(t *testing.T, sc scenario, ch *sched.Chooser) (res sched.Result) {
 							cur = in.(*val)
 						}
 						rec := inv{caller: ci, op: oi, in: cur.canon()}
+						if kind == "C" && cur != nil {
+							// "claim the key if it is free, else leave it": declines once somebody else's tag is there —
+							// typically on the retry after its first attempt lost the race
+							for _, tg := range cur.Tags {
+								if tg != "init" {
+									rec.out = "<declined>"
+									seq++
+									rec.seq = seq
+									invs = append(invs, rec)
+									return nil, false, nil
+								}
+							}
+						}
 						switch kind {
 						case "D":
 							rec.out = "<declined>"
@@ -282,6 +295,21 @@ func runOne(t *testing.T, sc scenario, ch *sched.Chooser) (res sched.Result) {
 						fail("failed-ok", "caller %d op %d: function failed without retry but CAS reported success", r.caller, r.op)
 					}
 				default:
+					if r.kind == "C" {
+						// a claim that ended by declining wrote nothing (whatever its earlier attempts proposed)
+						var lastAny *inv
+						for i := range invs {
+							if invs[i].caller == r.caller && invs[i].op == r.op {
+								lastAny = &invs[i]
+							}
+						}
+						if lastAny != nil && lastAny.out == "<declined>" {
+							if r.err != nil {
+								fail("declined-error", "caller %d op %d declined to write but CAS returned %v", r.caller, r.op, r.err)
+							}
+							continue
+						}
+					}
 					if r.err == nil {
 						wantTags[r.tag] = true
 						var last *inv
@@ -395,6 +423,11 @@ func scenarios() []scenario {
 		out = append(out, scenario{backend: b, wrapper: "bare", name: "3x1", callers: [][]string{{"A"}, {"A"}, {"A"}}, prepop: true, retries: 2})
 		out = append(out, scenario{backend: b, wrapper: "bare", name: "3x1", callers: [][]string{{"A"}, {"A"}, {"A"}}, retries: 2})
 		out = append(out, scenario{backend: b, wrapper: "multi", name: "2x1", callers: sets[0].callers, prepop: true, retries: 1})
+		// two claimants ("write if free, else decline"): the loser's first proposal must not survive anywhere
+		out = append(out, scenario{backend: b, wrapper: "bare", name: "claim", callers: [][]string{{"C"}, {"C"}}})
+		out = append(out, scenario{backend: b, wrapper: "multi", name: "claim", callers: [][]string{{"C"}, {"C"}}})
+		out = append(out, scenario{backend: b, wrapper: "multi", name: "claim", callers: [][]string{{"C"}, {"C"}}, prepop: true})
+		out = append(out, scenario{backend: b, wrapper: "multi", name: "claim-then-append", callers: [][]string{{"C", "A"}, {"C"}}})
 		for _, w := range []string{"prefix", "metrics", "multi"} {
 			out = append(out, scenario{backend: b, wrapper: w, name: "2x1", callers: sets[0].callers})
 			out = append(out, scenario{backend: b, wrapper: w, name: "mixed", callers: sets[2].callers, prepop: true})
@@ -413,7 +446,7 @@ func TestC07(t *testing.T) {
 		fmt.Sscan(b, &bound)
 	}
 	scs := scenarios()
-	rep.Bound = fmt.Sprintf("%d scenarios: backends {in-memory Consul-compatible store, etcd client over its in-process mock, gossip store on one detached node} × caller sets {2×1, 2×2, mixed append/decline/fail, fail-with-retry} 3×1 and 2×3 on an absent and on a pre-populated key, also with CAS retry budgets 1 and 2 (so that losing every attempt is within the preemption bound), bare and behind the prefix, metrics and multi(mirroring) wrappers; all schedules with <= %d preemptions over every mutex/atomic operation of the store implementations", len(scs), bound)
+	rep.Bound = fmt.Sprintf("%d scenarios: backends {in-memory Consul-compatible store, etcd client over its in-process mock, gossip store on one detached node} × caller sets {2×1, 2×2, mixed append/decline/fail, fail-with-retry, two claimants that decline once the key is taken} 3×1 and 2×3 on an absent and on a pre-populated key, also with CAS retry budgets 1 and 2 (so that losing every attempt is within the preemption bound), bare and behind the prefix, metrics and multi(mirroring) wrappers; all schedules with <= %d preemptions over every mutex/atomic operation of the store implementations", len(scs), bound)
 	rep.Rule = "stateless DFS on the real clients; oracle: the final value holds exactly the tags of the calls that reported success (no lost, no phantom update), failing and declining calls change nothing (also when the function scribbled on its input before failing or asking for a retry), the committing invocations form a chain (each applied to the value left by the previous one; for the gossip store on an absent key — where first writes are merged by design — set equality is required instead), the mirror holds a value some successful call wrote; distinct_nontrivial = distinct (scenario, final value, per-call outcome, number of function invocations)"
 	deadline := ev.Deadline(8 * time.Minute)
 	for _, sc := range scs {
